@@ -386,21 +386,38 @@ class Engine:
                        if not z3.is_true(m.eval(o.expr, model_completion=True))]
                 res["unsat"] += len(plain) - len(bad)
                 self._record_cex(bad, res, "cex", m)
+        # obligations with recorded-finding regions: grouped by region set so that a
+        # path costs one query outside the regions and one per region
+        groups = {}
         for o in special:
-            regs = [rg if z3.is_expr(rg) else z3.BoolVal(bool(rg)) for _, rg in o.known]
-            outside = z3.And([z3.Not(rg) for rg in regs] + [z3.Not(o.expr)])
-            r = self._check(outside, timeout=self.obl_timeout_ms)
+            regs = tuple(rg if z3.is_expr(rg) else z3.BoolVal(bool(rg)) for _, rg in o.known)
+            key = tuple(r.get_id() for r in regs) + tuple(k for k, _ in o.known)
+            groups.setdefault(key, (regs, [k for k, _ in o.known], []))[2].append(o)
+        for regs, kids, obs in groups.values():
+            outside = z3.And([z3.Not(rg) for rg in regs])
+            negs = z3.Or([z3.Not(o.expr) for o in obs])
+            r = self._check(outside, negs, timeout=self.obl_timeout_ms)
             if r == "unsat":
-                res["unsat"] += 1
-            elif r == "unknown":
-                res["unknown"] += 1
-                res["errors"].append("unknown obligation: %s" % o.label)
+                res["unsat"] += len(obs)
             else:
-                self._record_cex([o], res, "cex", self._msolver.model(), side=z3.And([z3.Not(rg) for rg in regs]))
-            for (kid, _), rg in zip(o.known, regs):
-                r = self._check(z3.And(rg, z3.Not(o.expr)), timeout=self.obl_timeout_ms)
+                for o in obs:
+                    r1 = self._check(outside, z3.Not(o.expr), timeout=self.obl_timeout_ms)
+                    if r1 == "unsat":
+                        res["unsat"] += 1
+                    elif r1 == "unknown":
+                        res["unknown"] += 1
+                        res["errors"].append("unknown obligation: %s" % o.label)
+                    else:
+                        self._record_cex([o], res, "cex", self._msolver.model(), side=outside)
+            for kid, rg in zip(kids, regs):
+                # a few witnesses per recorded finding are enough
+                if sum(1 for e in res["known"] if e.get("finding") == kid) >= 3:
+                    continue
+                r = self._check(rg, negs, timeout=min(self.obl_timeout_ms, 10000))
                 if r == "sat":
-                    self._record_cex([o], res, "known", self._msolver.model(), kid, side=rg)
+                    m = self._msolver.model()
+                    bad = [o for o in obs if not z3.is_true(m.eval(o.expr, model_completion=True))]
+                    self._record_cex(bad[:1] or obs[:1], res, "known", m, kid, side=rg)
 
     def _record_cex(self, bad, res, kind, m=None, kid=None, side=None):
         if m is None:
